@@ -29,6 +29,8 @@ def run(chk):
     objs = [stix2.parse(d, allow_custom=True) for d in pool]
     key = D.version_key
 
+    late_obj = stix2.v21.Identity(id='identity--' + D.U(77), name='late', created='2020-03-01T00:00:00.000Z', modified='2020-03-01T00:00:00.000Z')
+
     def partitions():
         n = len(objs)
         for k in (1, 2, 3):
@@ -75,8 +77,28 @@ def run(chk):
         got_q = sorted((key(o) for o in comp.query([Filter('type', '=', 'identity')])), key=repr)
         want_q = sorted((k for k in union if k[0].startswith('identity--')), key=repr)
         if got_q != want_q: return ('composite#query gives each distinct (id, version) once', f'members {sig}: query = {got_q}, scan {want_q}', {})
+        # a timestamp filter spelled differently from the stored text denotes the same instants for every kind of member
+        for tsf in (Filter('created', '=', '2020-01-01T00:00:00Z'), Filter('created', '=', '2020-01-01T00:00:00.000000Z'), Filter('modified', '>=', '2020-01-01T00:00:00.5Z')):
+            from props._stores import version_key as _vk
+            def inst(v):
+                import stix2.utils as _U
+                return _U.parse_into_datetime(v) if isinstance(v, str) else v
+            want_t = sorted((k for k, o in union.items() if tsf.property in o and ((inst(o[tsf.property]) == inst(tsf.value)) if tsf.op == '=' else (inst(o[tsf.property]) >= inst(tsf.value)))), key=repr)
+            got_t = sorted((key(o) for o in comp.query([tsf])), key=repr)
+            if got_t != want_t: return ('composite#a timestamp filter means the instant, for every member', f'members {sig}: query({tsf}) = {got_t}, scan {want_t}', {})
+        # an Environment built over this composite answers as the composite does: with its filters, and with members attached later
+        env0 = Environment(source=comp)
+        late = MemorySource(stix_data=[late_obj]); comp.add_data_source(late)
+        for what, a, b in (('get of an object held by a member attached later', lambda: env0.get(late_obj['id']), lambda: comp.get(late_obj['id'])),
+                           ('query', lambda: sorted((key(o) for o in env0.query([Filter('type', '=', 'identity')])), key=repr), lambda: sorted((key(o) for o in comp.query([Filter('type', '=', 'identity')])), key=repr))):
+            ra, rb = a(), b()
+            if (key(ra) if hasattr(ra, 'get') and not isinstance(ra, list) and ra is not None else ra) != (key(rb) if hasattr(rb, 'get') and not isinstance(rb, list) and rb is not None else rb):
+                return ('environment#answers as the composite it was built over', f'members {sig}: {what}: environment {ra if isinstance(ra, list) else ra and key(ra)}, composite {rb if isinstance(rb, list) else rb and key(rb)}', {})
+        comp.remove_data_source(late.id)
         comp.filters.add(Filter('name', '!=', 'a2'))
+        envf = sorted((key(o) for o in env0.query([Filter('type', '=', 'identity')])), key=repr)
         want_f = sorted((k for k, o in union.items() if k[0].startswith('identity--') and o['name'] != 'a2'), key=repr)
+        if envf != want_f: return ('environment#answers as the composite it was built over', f'members {sig}: a filter attached to the composite: environment query = {envf}, scan {want_f}', {})
         got_f = sorted((key(o) for o in comp.query([Filter('type', '=', 'identity')])), key=repr)
         if got_f != want_f: return ('composite#attached filters apply to every member', f'members {sig}: filtered query = {got_f}, scan {want_f}', {})
         ga = sorted((key(o) for o in comp.all_versions('identity--' + D.U(1))), key=repr)
